@@ -165,6 +165,9 @@ var crashFamily = []string{
 	"App[~x, a=\"%zz\"]:\n    @b = [[\"%\"], []]\n    ...\n",
 	// lint of a call that names a simple endpoint with a REST method (nil method map, linter.go lintEndpoint)
 	"A:\n    foo:\n        ...\nB:\n    bar:\n        A <- GET foo\n",
+	// post-processing assertions (inferAnonymousType, valueTypeToSysl): nested transform without a declared type whose body assigns a plain value
+	"App:\n    !view v(a <: int) -> int:\n        a -> (:\n            x = a -> (:\n                y = 1\n            )\n        )\n",
+	"App:\n    !view v(a <: int) -> int:\n        a -> (:\n            let t = a -> (:\n                y = \"s\"\n            )\n            x = t\n        )\n",
 	// collector call template whose target extends an ordinary call's target by one more namespace part
 	"Payments:\n    Post:\n        ...\nPayments :: Ledger:\n    Post:\n        ...\nShop:\n    Buy:\n        Payments <- Post\n    .. * <- *:\n        Payments :: Ledger <- Post [~audited]\n",
 	"Shop:\n    Buy:\n        A :: B :: C <- Post\n    .. * <- *:\n        A <- Post [~x]\n        A :: B <- Post [~y]\n",
